@@ -225,6 +225,48 @@ def handle (line : String) : String :=
          | some (labels, steps) =>
            "(proof (labels " ++ " ".intercalate labels ++ ") (steps " ++ " ".intercalate (steps.map toString) ++ "))")
       | _, _, _ => "bad-request"
+    | "mmparse", [toks] =>
+      match strsOfSexp toks with
+      | some toks => (match MM.parseDb toks with | some db => mdbToStr db | none => "(raise)")
+      | none => "bad-request"
+    | "mmprint", [db] =>
+      match mdbOfSexp db with
+      | some db => strsToStr (MM.printDb db)
+      | none => "bad-request"
+    | "mmslice", [db, .list (.atom "deps" :: deps), incl, excl] =>
+      let deps? := deps.mapM fun d => match d with
+        | .list [k, v] => do pure (← strOfHexAtom k, ← strsOfSexp v)
+        | _ => none
+      match mdbOfSexp db, deps?, strsOfSexp incl, strsOfSexp excl with
+      | some db, some deps, some incl, some excl =>
+        (match MM.sliceDatabase db deps incl excl with
+         | none => "(raise)"
+         | some out => "(slices " ++ " ".intercalate (out.map fun (l, d) => s!"({hexAtomOfStr l} {mdbToStr d})") ++ ")")
+      | _, _, _, _ => "bad-request"
+    | "mmverify", [db, goal, .list ls, steps] =>
+      match mmDbOfSexp db, mmTermOfSexp goal, ls.mapM mmLblOfSexp, natList? steps with
+      | some db, some goal, some ls, some steps => s!"(verify {MM.mmVerify db goal ls steps} wf {db.wf})"
+      | _, _, _, _ => "bad-request"
+    | "mmxlate", [.list (.atom "memo" :: memo), db, goal, .list ls, steps] =>
+      match mmDbOfSexp db, mmTermOfSexp goal, ls.mapM mmLblOfSexp, natList? steps with
+      | some db, some goal, some ls, some steps =>
+        let cfg? : Option PySt.Cfg := match memo with
+          | [] => some {}
+          | .atom "yes" :: ps => (ps.mapM npatOfSexp).map fun S => { memo := some S }
+          | _ => none
+        (match cfg? with
+         | none => "bad-request"
+         | some cfg =>
+           match MM.translateFull cfg fuel db goal ls steps with
+           | none => "fuel"
+           | some none => "(raise)"
+           | some (some (_, calls)) =>
+             match PySt.trackAll fuel (PySt.init [MM.image db goal]) calls ([], [], []) with
+             | some (some (_, (g, c, p))) =>
+               if (encode g ++ encode c ++ encode p).any (· > 255) then "(raise)"
+               else s!"(ok {hexOfBytes (encode g)} {hexOfBytes (encode c)} {hexOfBytes (encode p)})"
+             | _ => "(raise)")
+      | _, _, _, _ => "bad-request"
     | "taut-cf", [f] =>
       match formOfSexp f with
       | some f => cfToStr (CF.ofForm f)
